@@ -631,14 +631,17 @@ def run(ctx):
 
     def light_run(ci_chunk):
         ci, ch = ci_chunk
-        return run_filter_batch(tool, [games[gi].fens[i] for gi, i in ch], per_pos, extra=variants[1 if ci % 4 == 3 else 0])
+        rnd = ci % 4 == 3
+        return run_filter_batch(tool, [games[gi].fens[i] for gi, i in ch], per_pos / 2 if rnd else per_pos, extra=variants[1 if rnd else 0])
     light_res = list(pool.map(light_run, list(enumerate(chunks))))
     illegal_cases = []
-    for ch, res in zip(chunks, light_res):
+    for ci, (ch, res) in enumerate(zip(chunks, light_res)):
         for (gi, i), (fen, data, note) in zip(ch, res):
             ctx.evaluated()
             kind = verdict_kind(data)
             ctx.count("stage1_" + (kind if data is not None else ("timeout" if note == "timeout" else "crash")))
+            if data is None and note == "timeout":
+                ctx.count("stage1_timeout_" + ("rndkernel_variant" if ci % 4 == 3 else "default_order"))
             if data is None and note != "timeout":
                 problems.append(("texelutil proofgame -f crashed on a reachable position: " + note,
                                  {"fen": fen, "moves": games[gi].moves[:i]}, "crash:" + fen_key(fen)))
